@@ -142,8 +142,11 @@ struct Case {
     img: Img,
     img2: Img,
     tag: String,
-    /// predecessor symbol (context): the statement is not restricted to freshly constructed drivers
-    pred: Option<usize>,
+    /// predecessor symbols (context): the statement is not restricted to freshly constructed drivers
+    pred: Vec<usize>,
+    /// run on a panel that really is busy for a few polls after every busy-raising command and that
+    /// does not latch commands sent while BUSY is asserted
+    busy: bool,
 }
 
 fn prefix_for(spec: &Spec, e: &FullEntry) -> Vec<Op> {
@@ -159,22 +162,51 @@ fn prefix_for(spec: &Spec, e: &FullEntry) -> Vec<Op> {
 fn check_frame(c: &Case, variant: &str, rep: &mut Report) {
     let mut tmp = Report::new();
     check_frame_one(c, variant, &mut tmp);
-    if c.pred.is_some() && !tmp.failures.is_empty() {
+    if !c.pred.is_empty() && !tmp.failures.is_empty() {
         let mut fresh = Report::new();
         let mut fc = c.clone();
-        fc.pred = None;
+        if c.busy {
+            // baseline of a busy context: the same history on an always-idle panel
+            fc.busy = false;
+        } else {
+            fc.pred = vec![];
+        }
         check_frame_one(&fc, variant, &mut fresh);
-        let fresh_sigs: Vec<String> = fresh.failures.iter().map(|f| f.sig()).collect();
         let strip = |f: &Failure| {
             let mut g = f.clone();
             g.tags.retain(|t| !t.starts_with("after:"));
             g.sig()
         };
+        let fresh_sigs: Vec<String> = fresh.failures.iter().map(|f| strip(f)).collect();
         let keep: Vec<Failure> = tmp.failures.iter().filter(|f| !fresh_sigs.contains(&strip(f))).cloned().collect();
         tmp.failures.clear();
         tmp.fail_counts.clear();
+        let syms = syms(c.spec);
         for f in keep {
-            tmp.fail(f);
+            if c.pred.len() == 1 {
+                tmp.fail(f);
+                continue;
+            }
+            // name the smallest predecessor history that still provokes this failure
+            let target = strip(&f);
+            let run_with = |t: &[usize]| -> Option<Failure> {
+                let mut g = Grammar::default();
+                for i in t {
+                    if !g.allows(c.spec, &syms[*i]) {
+                        return None;
+                    }
+                    g.step(c.spec, &syms[*i]);
+                }
+                let mut r = Report::new();
+                let mut tc = c.clone();
+                tc.pred = t.to_vec();
+                check_frame_one(&tc, variant, &mut r);
+                r.failures.iter().find(|x| strip(x) == target).cloned()
+            };
+            let min = minimize_history(&c.pred, &target, &|t: &[usize]| if t.is_empty() { None } else { run_with(t).map(|_| target.clone()) });
+            let mut g = run_with(&min).unwrap_or(f.clone());
+            g.detail = format!("{} | seen after: {}", g.detail, sym_kinds(&syms, &c.pred));
+            tmp.fail(g);
         }
     }
     rep.merge(tmp);
@@ -184,13 +216,36 @@ fn check_frame_one(c: &Case, variant: &str, rep: &mut Report) {
     let spec = c.spec;
     let e = &c.entry;
     rep.eval(spec.name);
-    let mut rig = Rig::simple(spec);
+    let mut rig = if c.busy {
+        match Rig::new(
+            spec,
+            |b| {
+                b.busy_mode = crate::hal::BusyMode::Physical;
+                b.chips[0].busy.default_d = 3;
+            },
+            None,
+            false,
+        ) {
+            Ok(r) => r,
+            Err(_) => {
+                rep.count("contexts_with_failing_predecessor", 1);
+                return;
+            }
+        }
+    } else {
+        Rig::simple(spec)
+    };
+    if c.busy {
+        rig.board.borrow_mut().chips[0].drop_while_busy = true;
+    }
     let mut pre: Vec<Op> = Vec::new();
     let mut ctx_tag: Option<String> = None;
-    if let Some(pi) = c.pred {
+    if !c.pred.is_empty() {
         let syms = syms(spec);
-        pre.extend(syms[pi].iter().cloned());
-        ctx_tag = Some(format!("after:{}", sym_kinds(&syms, &[pi])));
+        for pi in &c.pred {
+            pre.extend(syms[*pi].iter().cloned());
+        }
+        ctx_tag = Some(format!("after:{}{}", sym_kinds(&syms, &c.pred), if c.busy { ",panel-busy" } else { "" }));
     }
     pre.extend(prefix_for(spec, e));
     for p in &pre {
@@ -748,7 +803,7 @@ pub fn run(ctx: &Ctx) -> Report {
             }
             for (img, tag) in imgs {
                 let img2 = if len2 > 0 { Img::Coded { salt: 0xBEEF ^ hash_str(&tag) as u32, len: len2 } } else { Img::None };
-                cases.push(Case { spec, entry: *e, img, img2, tag, pred: None });
+                cases.push(Case { spec, entry: *e, img, img2, tag, pred: vec![], busy: false });
             }
             // contexts: the same entry point after every symbol of the alphabet (one coded image; more in thorough)
             let syms = syms(spec);
@@ -761,7 +816,61 @@ pub fn run(ctx: &Ctx) -> Report {
                     let salt = 0x5EED + j as u32 * 977 + pi as u32;
                     let img = Img::Coded { salt, len };
                     let img2 = if len2 > 0 { Img::Coded { salt: salt ^ 0xBEEF, len: len2 } } else { Img::None };
-                    cases.push(Case { spec, entry: *e, img, img2, tag: format!("ctx{}:{}", pi, j), pred: Some(pi) });
+                    cases.push(Case { spec, entry: *e, img, img2, tag: format!("ctx{}:{}", pi, j), pred: vec![pi], busy: false });
+                    if j == 0 {
+                        let img = Img::Coded { salt: salt ^ 0xB5, len };
+                        let img2 = if len2 > 0 { Img::Coded { salt: salt ^ 0xBEEF ^ 0xB5, len: len2 } } else { Img::None };
+                        cases.push(Case { spec, entry: *e, img, img2, tag: format!("busyctx{}", pi), pred: vec![pi], busy: true });
+                    }
+                }
+            }
+            // busy contexts, systematically: [any symbol; a symbol that starts a refresh] on a panel that is
+            // really busy afterwards and ignores commands while busy, then the entry point under test
+            let refreshers: Vec<usize> = (0..syms.len()).filter(|i| syms[*i].iter().any(|o| matches!(o.k, K::Display | K::UpdateAndDisplay | K::DisplayNew | K::UpdateAndDisplayNew | K::DisplayPartial))).collect();
+            for pi in 0..syms.len() {
+                for (qn, qi) in refreshers.iter().enumerate() {
+                    if spec.w * spec.h > 300 * 400 && !ctx.tier_thorough && (pi + qn) % 3 != 0 {
+                        continue;
+                    }
+                    let mut g = Grammar::default();
+                    if !g.allows(spec, &syms[pi]) {
+                        continue;
+                    }
+                    g.step(spec, &syms[pi]);
+                    if !g.allows(spec, &syms[*qi]) {
+                        continue;
+                    }
+                    if spec.name == "epd2in13_v2" && e.k == K::SetPartialBase && [pi, *qi].iter().any(|i| syms[*i].iter().any(|o| o.k == K::SetRefresh)) {
+                        continue;
+                    }
+                    let salt = 0xB05E + (pi * 17 + qi) as u32;
+                    let img = Img::Coded { salt, len };
+                    let img2 = if len2 > 0 { Img::Coded { salt: salt ^ 0xBEEF, len: len2 } } else { Img::None };
+                    cases.push(Case { spec, entry: *e, img, img2, tag: format!("busypair{}:{}", pi, qi), pred: vec![pi, *qi], busy: true });
+                }
+            }
+            // longer contexts: seeded random walks over the alphabet (2..=4 symbols; more and longer in thorough)
+            let big = spec.w * spec.h > 300 * 400;
+            let nwalk = match (ctx.tier_thorough, big) {
+                (false, true) => 12,
+                (false, false) => 60,
+                (true, true) => 150,
+                (true, false) => 1500,
+            };
+            for j in 0..nwalk {
+                let n = if ctx.tier_thorough { 2 + j % 6 } else { 2 + j % 3 };
+                let h = random_history(spec, &syms, n, &mut rng);
+                if spec.name == "epd2in13_v2" && e.k == K::SetPartialBase && h.iter().any(|i| syms[*i].iter().any(|o| o.k == K::SetRefresh)) {
+                    continue;
+                }
+                let salt = 0xA11CE + j as u32 * 31;
+                let img = Img::Coded { salt, len };
+                let img2 = if len2 > 0 { Img::Coded { salt: salt ^ 0xBEEF, len: len2 } } else { Img::None };
+                cases.push(Case { spec, entry: *e, img, img2, tag: format!("walk{}", j), pred: h.clone(), busy: false });
+                if j % 3 == 0 {
+                    let img = Img::Coded { salt: salt ^ 0xB5, len };
+                    let img2 = if len2 > 0 { Img::Coded { salt: salt ^ 0xBEEF ^ 0xB5, len: len2 } } else { Img::None };
+                    cases.push(Case { spec, entry: *e, img, img2, tag: format!("busywalk{}", j), pred: h, busy: true });
                 }
             }
         }
